@@ -86,8 +86,14 @@ class ControlServer(ABC, Generic[ClientT]):
         enters the session's `listen` loop.
         """
         session = ControlSession(self, reader, writer)
-        await session.client_handshake()
-        await session.listen()
+        try:
+            await session.client_handshake()
+            await session.listen()
+        finally:
+            # Without this the connection stays open on the server's side after
+            # the session has ended and `asyncio.Server.wait_closed` (awaited
+            # when the serving task is cancelled) would never return.
+            writer.close()
 
     @abstractmethod
     async def _get_server_instance(
